@@ -278,17 +278,25 @@ func (s *Store) LoadCheckpoint() error {
 			return fmt.Errorf("restore checkpoints from savepoint: %v", err)
 		}
 	} else {
-		// For a new job, check the file store for first (latest) snapshot file.
-		// Checkpoint IDs are encoded so that files will be in reverse chronological
-		// order.
+		// For a new job, check the file store for the snapshot file with the
+		// highest checkpoint ID. The listing order can't be relied on for this
+		// because the encoded IDs in the file names don't sort by ID.
 		var latestCheckpointFile string
+		var latestCheckpointID uint64
 		for filePath, err := range s.fileStore.List() {
 			if err != nil {
 				return err
 			}
-			if filepath.Ext(filePath) == ".snapshot" {
+			if filepath.Ext(filePath) != ".snapshot" {
+				continue
+			}
+			id, ok := checkpointIDFromPath(filePath)
+			if !ok {
+				continue
+			}
+			if latestCheckpointFile == "" || id > latestCheckpointID {
 				latestCheckpointFile = filePath
-				break
+				latestCheckpointID = id
 			}
 		}
 
